@@ -688,8 +688,21 @@ def method_case(run, seed, k, mods):
     with contextlib.redirect_stdout(io.StringIO()):      # the constructor prints its omega slop
         o = refinegrains.refinegrains(tolerance=tol)
     o.gv = gv
-    mat = o.refine(ubi.copy())
+    # the start matrix is the caller's (gof() hands in ubisread[name] again and again: "always start refining the read in
+    # one"): it is not changed, and a second call with it gives the same answer
+    start = np.ascontiguousarray(ubi, dtype=float).copy()
+    mat = o.refine(start)
+    first = (np.array(mat, copy=True), int(o.npks), float(o.avg_drlv2))
     run.count("refinegrains_refine_calls")
+    if not np.array_equal(start, ubi):
+        V("refinegrains.refine:start-matrix-changed", "refinegrains.refine changed the matrix it was given (by %.3g)"
+          % np.abs(start - ubi).max())
+    else:
+        mat_again = o.refine(start)
+        run.count("refinegrains_refine_repeated_calls")
+        if not (np.array_equal(mat_again, first[0]) and int(o.npks) == first[1] and float(o.avg_drlv2) == first[2]):
+            V("refinegrains.refine:second-call-differs", "a second refine() with the same start matrix gives npks %d / avg_drlv2 %r, "
+              "the first gave %d / %r" % (o.npks, o.avg_drlv2, first[1], first[2]))
     in1 = drlv2 < t2 - bw
     un1 = (~in1) & (drlv2 < t2 + bw)
     if un1.any() or in1.sum() == 0:
